@@ -15,8 +15,8 @@ FAMS = {
     "C06": (["gates"], ["gates", "gates2"]),
     "C07": (["contq", "gates"], ["cont", "gates", "gates2", "live"]),
     "C08": (["order", "retry"], ["order", "retry", "tolerance", "gates"]),
-    "C09": (["crash", "crash2"], ["crash", "crash2", "crashchk"]),
-    "C10": (["crash", "crashchk"], ["crash", "crash2", "crashchk", "livecrash"]),
+    "C09": (["crash", "crash2"], ["crash", "crash2", "crashchk", "crashchkfn"]),
+    "C10": (["crashfn", "crashchkfn", "crash"], ["crash", "crashfn", "crash2", "crash2fn", "crashchk", "crashchkfn", "livecrash"]),
     "C11": ([], []),
     "C12": ([], []),
 }
